@@ -259,6 +259,10 @@ class CodecsShim(object):
         return getattr(codecs, name)
 
 
+_PRIVATE_DIR = None
+_ORIGINAL_FILE = {}
+
+
 class Node(object):
     """The simulated ural process."""
 
@@ -270,10 +274,27 @@ class Node(object):
         self.disk = disk
         self.stats = stats
         self.tld = tld
-        self.data_path = os.path.abspath(os.path.join(os.path.dirname(tld.__file__), "tld_data.py"))
+        # upgrade() writes next to ural.tld's __file__. Each worker process gets a
+        # directory of its own inside the scratch copy and ural.tld.__file__ is
+        # pointed there, so that an implementation persisting through a path the
+        # disk seam does not see (real I/O: io.open, temp file + os.replace) can
+        # never race with another worker process on one real file
+        global _PRIVATE_DIR
+        package_dir = os.path.dirname(os.path.abspath(_ORIGINAL_FILE.setdefault("tld", tld.__file__)))
+        if _PRIVATE_DIR is None or not _PRIVATE_DIR.endswith("-%d" % os.getpid()):
+            _PRIVATE_DIR = os.path.join(os.path.dirname(package_dir), "proc-%d" % os.getpid())
+            os.makedirs(_PRIVATE_DIR, exist_ok=True)
+            import shutil
+
+            shutil.copy(os.path.join(package_dir, "tld_data.py"), os.path.join(_PRIVATE_DIR, "tld_data.py"))
+        self.private_dir = _PRIVATE_DIR
+        self.data_path = os.path.join(self.private_dir, "tld_data.py")
 
     def install_seams(self):
+        import os
+
         tld = self.tld
+        tld.__file__ = os.path.join(self.private_dir, "tld.py")
         tld.urlopen = self.net.urlopen
         tld.codecs = CodecsShim(self.disk)
         # a refactoring to the builtin open() resolves this module global first
